@@ -90,13 +90,13 @@ def install(reg):
 UNRECOGNISED = z3.Function("c12!model-not-definite", z3.IntSort(), z3.BoolSort())(z3.IntVal(1))
 
 
-def bounded_by_declared(c):
+def bounded_by_declared(c, sizes_param="unpack_sizes"):
     """Every decompressor call made on this path carries the last declared size of the folder."""
     calls = c.st.ghost.get(GHOST, ())
     if not calls and c.exc is None:
         # the function returned without a decompressor call the model saw (it is under contract because it makes one): not followed
         return UNRECOGNISED
-    sizes = c.args.get("unpack_sizes") if hasattr(c.args, "get") else None
+    sizes = c.args.get(sizes_param) if sizes_param and hasattr(c.args, "get") else None
     if sizes is None:
         # the function does not receive the declared sizes: nothing it hands to a decompressor can be the declared bound
         return z3.BoolVal(not calls)
@@ -144,13 +144,32 @@ def contracts(reg, mod):
     for q, fnode in mod.functions.items():
         if not q.startswith("SevenZipReader.") or "decompress" not in {x.func.attr for x in ast.walk(fnode) if isinstance(x, ast.Call) and isinstance(x.func, ast.Attribute)}:
             continue
-        params = [a.arg for a in fnode.args.posonlyargs + fnode.args.args]
-        if "data" not in params:
+        plist = fnode.args.posonlyargs + fnode.args.args
+        params = [a.arg for a in plist]
+        ann = {a.arg: (ast.unparse(a.annotation) if a.annotation is not None else "") for a in plist}
+        # roles by annotation (names as a fall-back): the packed data, the coder properties, the declared sizes
+        role = {}
+        for n in params:
+            t = ann[n].replace("typing.", "")
+            if n in ("self", "cls"):
+                continue
+            if t in ("List[int]", "list[int]", "Sequence[int]", "Tuple[int, ...]", "tuple[int, ...]", "Iterable[int]") or (not t and n == "unpack_sizes"):
+                role.setdefault("sizes", n)
+            elif t in ("Optional[bytes]", "bytes | None", "None | bytes") or (not t and n == "properties"):
+                role.setdefault("properties", n)
+            elif t in ("bytes", "bytes | bytearray", "bytearray", "memoryview") or (not t and n == "data"):
+                role.setdefault("data", n)
+        if "data" not in role:
             continue
         # a decoder that shifts by an amount computed from its properties (LZMA2 dictionary size) is outside the integer fragment for
         # symbolic property bytes: there the properties are sampled (absent, empty, one byte of each branch); they do not bear on the bound
         shifts = any(isinstance(x, ast.BinOp) and isinstance(x.op, (ast.LShift, ast.RShift)) and not isinstance(x.right, ast.Constant)
                      for g in _with_callees(mod, fnode) for x in ast.walk(g))
-        mk = {"self": p_unk(), "data": p_bytes(2), "properties": p_props_sampled() if shifts else p_opt(p_bytes(5)), "unpack_sizes": p_sizes()}
+        mk = {"self": p_unk(), role["data"]: p_bytes(2)}
+        if "properties" in role:
+            mk[role["properties"]] = p_props_sampled() if shifts else p_opt(p_bytes(5))
+        if "sizes" in role:
+            mk[role["sizes"]] = p_sizes()
+        mk["__sizes__"] = role.get("sizes")
         out.append((q, params, mk))
     return out
